@@ -239,23 +239,25 @@ ElemStr(st, e) ==      \* "If element is undefined or null, let next be the empt
     ELSE IF e = Undef \/ e = Null THEN Ret(st, StrV(<<>>)) ELSE ToStr(st, e)
 
 M_join(st0, o, args) ==
-    LET s1 == LenSt(st0, o)                                                     \* steps 1-3
-    IN  IF Failed(s1) THEN s1
-        ELSE LET len == s1.v.n
-                 sepV == Arg(args, 1)
-                 s2 == IF sepV = Undef THEN Ret(s1, StrV(S_comma)) ELSE ToStr(s1, sepV)   \* steps 4-5
-             IN  IF Failed(s2) THEN s2
-                 ELSE IF IsZero(len) THEN Ret(s2, StrV(<<>>))                   \* step 6
-                 ELSE IF ~IsSmall(len) THEN Unsupported(s2)
-                 ELSE LET sep == s2.v.s
-                          RECURSIVE Loop(_, _, _)
-                          Loop(st, k, R) ==                                     \* steps 7-10
+    LET sepV == Arg(args, 1)
+        SepOf(st) == IF sepV = Undef THEN Ret(st, StrV(S_comma)) ELSE ToStr(st, sepV)      \* steps 4-5
+        \* deviation: builtinArrayJoin converts the separator before it reads length
+        dv == D("D08_join_separator_before_length")
+        sA == IF dv THEN SepOf(st0) ELSE LenSt(st0, o)                              \* steps 1-3
+        sB == IF Failed(sA) THEN sA ELSE IF dv THEN LenSt(sA, o) ELSE SepOf(sA)
+    IN  IF Failed(sB) THEN sB
+        ELSE LET len == IF dv THEN sB.v.n ELSE sA.v.n
+                 sep == IF dv THEN sA.v.s ELSE sB.v.s
+             IN  IF IsZero(len) THEN Ret(sB, StrV(<<>>))                            \* step 6
+                 ELSE IF ~IsSmall(len) THEN Unsupported(sB)
+                 ELSE LET RECURSIVE Loop(_, _, _)
+                          Loop(st, k, R) ==                                         \* steps 7-10
                              IF Failed(st) \/ k >= len.v THEN [st |-> st, R |-> R]
                              ELSE LET e == ElemStr(st, AGet(st.H, o, IdxS(k)))
                                   IN  IF Failed(e) THEN [st |-> e, R |-> R]
                                       ELSE Loop(e, k + 1, (IF k = 0 THEN <<>> ELSE R \o sep) \o e.v.s)
-                          r == Loop(s2, 0, <<>>)
-                      IN  IF Failed(r.st) THEN r.st ELSE Ret(r.st, StrV(r.R))   \* step 11
+                          r == Loop(sB, 0, <<>>)
+                      IN  IF Failed(r.st) THEN r.st ELSE Ret(r.st, StrV(r.R))       \* step 11
 
 S_objObject == <<91, 111, 98, 106, 101, 99, 116, 32, 79, 98, 106, 101, 99, 116, 93>>
 (* the receiver finds "join" iff Array.prototype (object 2) is on its prototype chain *)
@@ -368,6 +370,8 @@ M_concat(st0, o, args) ==
             ELSE LET P == IdxS(k)
                  IN  IF HasProperty(st.H, e, P)
                      THEN Spread(DefElem(st, A, IdxS(n), AGet(st.H, e, P)), e, k + 1, len, n + 1)
+                     ELSE IF D("D08_concat_fills_holes")       \* deviation: a hole of a spread array becomes undefined
+                     THEN Spread(DefElem(st, A, IdxS(n), Undef), e, k + 1, len, n + 1)
                      ELSE Spread(st, e, k + 1, len, n + 1)
         RECURSIVE Items(_, _, _)
         Items(st, i, n) ==                                                      \* step 5
@@ -505,8 +509,10 @@ M_indexOf(st0, o, args) ==
 M_lastIndexOf(st0, o, args) ==
     LET s1 == LenSt(st0, o)
     IN  IF Failed(s1) THEN s1
-        ELSE IF IsZero(s1.v.n) /\ ~(D("D08_lastIndexOf_from_eq_len") /\ Len(args) >= 2)
-             THEN Ret(s1, IntV(-1))                                             \* step 4
+        \* step 4.  deviation: builtinArrayLastIndexOf has no early return for length 0, so a
+        \* fromIndex that was passed is converted (its valueOf runs) although nothing can be found
+        ELSE IF IsZero(s1.v.n) /\ ~(D("D08_lastIndexOf_converts_from_on_empty") /\ Len(args) >= 2)
+             THEN Ret(s1, IntV(-1))
         ELSE IF ~IsSmall(s1.v.n) THEN Unsupported(s1)
         ELSE LET len == s1.v.n.v
                  x == Arg(args, 1)
